@@ -109,6 +109,9 @@ def sym_value(c, K, name, wide=True):
 # ---------------------------------------------------------------------------
 # C07 (a): one atom line, every subset/order of CHG RAD MASS, one extra keyword anywhere
 
+RAW_COORDS = ["1e-07", "1.5E+03", "-0", "+2.5", ".5", "5.", "-.25", "00012.5000", "1e22"]
+
+
 def c07_props(**p):
     syms = p.get("symbols", ["C"])
 
@@ -129,6 +132,11 @@ def c07_props(**p):
                 pos = c.choice("xp", len(keys) + 1) if keys else 0
         xyz = (COORDS[c.choice("cx", len(COORDS))], 1.25, -2.0) if p.get("coords") else (0.5, 1.25, -2.0)
         text = v3000_text([A3(idx, sym, xyz, [(K, vals[K]) for K in order], extra=extra, extra_pos=pos)], [])
+        if p.get("coords_raw"):
+            # other legal spellings of a real number in the x field
+            raw = RAW_COORDS[c.choice("raw", len(RAW_COORDS))]
+            text = text.replace(" 0.5 1.25 ", f" {raw} 1.25 ", 1)
+            xyz = (float(raw), 1.25, -2.0)
         c.note("molfile", text)
         g = T()["read"](text)
         c.note("node", {k: v for k, v in dict(g.nodes[0]).items() if k != "invariant_code"} if g.number_of_nodes() else None)
@@ -455,6 +463,10 @@ def c06(**p):
         header = HEADERS[c.choice("header", len(HEADERS))] if variant == 0 else ("", "  REF", "")
         trailing = TRAILING[c.choice("trailing", len(TRAILING))] if variant == 3 else ()
         t2 = v3000_text(a2, b2, header=header, trailing=trailing, eol="\r\n" if variant == 4 else "\n")
+        if p.get("trailing_blanks"):
+            # trailing blanks on the version line and on every 'M  V30' line
+            eol = "\r\n" if variant == 4 else "\n"
+            t2 = eol.join((ln + "   ") if (i == 3 or ln.startswith("M  V30")) else ln for i, ln in enumerate(t2.split(eol)))
         c.note("mol", mol.describe())
         c.note("rendering1", t1)
         c.note("rendering2", t2)
@@ -658,9 +670,9 @@ def c08_big(**p):
     def body(c):
         kind = c.choice("kind", 2)
         els = ["C"] * n
-        iso = [(a + 1, 13 + (a % 2)) for a in range(n)] if kind == 0 else [(n, 14), (n - 1, 13)]
-        chg = [(n, -1), (1, 3)]
-        rad = [(n - 2, 2)]
+        iso = [(a + 1, 13 + (a % 2)) for a in range(n)] if kind == 0 else [(n, 238), (n - 1, 13), (2, 101)]
+        chg = [(n, -15), (1, 15), (n - 3, -1)]          # values that fill the three-character field
+        rad = [(n - 2, 2), (3, 3)]
         al = [v2000_atom_line("C", (float(a % 100), float(a // 100), 0.0)) for a in range(n)]
         bl = [v2000_bond_line(a + 1, a + 2, 1 + (a % 3)) for a in range(n - 1)]
         pl = fixed_lines("CHG", chg) + fixed_lines("RAD", rad) + fixed_lines("ISO", iso)
